@@ -147,6 +147,10 @@ Ctx(g) ==
       Hop |-> [e \in E |-> IF g.edges[e].kind \in {"direct", "ttu"} THEN 1 ELSE 0],
       IsTerm |-> IsTerm, Groups |-> Groups,
       Out |-> [n \in N |-> SortedSeq(OutE[n])],
+      \* operands in source order (by their first edge)
+      GroupSeq |-> [n \in N |-> LET RECURSIVE Ord(_)
+                                    Ord(S) == IF S = {} THEN <<>> ELSE LET g0 == CHOOSE gg \in S : \A h \in S : MinE(gg) <= MinE(h) IN <<g0>> \o Ord(S \ {g0})
+                                IN Ord(Groups[n])],
       BaseGroup |-> [n \in N |-> IF Groups[n] = {} THEN {} ELSE CHOOSE gg \in Groups[n] : \A h \in Groups[n] : MinE(gg) <= MinE(h)],
       AllTypes |-> { IF g.nodes[n].nt = "wild" THEN WildTypeOf(n) ELSE n : n \in { x \in N : IsTerm[x] } },
       TermType |-> [n \in N |-> IF g.nodes[n].nt = "wild" THEN WildTypeOf(n) ELSE n],
@@ -219,7 +223,7 @@ HasMultiEdgeOperand(C) == \E n \in C.N : C.nt[n] = "op" /\ C.label[n] # "union" 
 \* class predicate of known finding D16 (re-seeding): an intersection with three or more edges - when the running
 \* intersection becomes empty before the last edge the next edge re-seeds it (`len(weights) == 0` taken for "first edge")
 HasReseedableIntersection(C) == \E n \in C.N : C.nt[n] = "op" /\ C.label[n] = "intersection" /\ Len(C.Out[n]) >= 3
-KnownClass(C) == HasMultiEdgeOperand(C) \/ HasReseedableIntersection(C)
+KnownClass(C) == "OperandPerEdge" \in Devs /\ (HasMultiEdgeOperand(C) \/ HasReseedableIntersection(C))
 
 (***************************************************************************)
 (* 4. Impl layer: operators used by the PlusCal transcription              *)
@@ -255,6 +259,22 @@ EnforceFold(es, i, acc, ew) ==                     \* intersection: every EDGE i
            nacc == IF DOMAIN acc = {} THEN w ELSE [k \in DOMAIN acc \cap DOMAIN w |-> Max(acc[k], w[k])]
        IN EnforceFold(es, i+1, nacc, ew)
 
+\* the strategies after the operand-grouping fix (D11 / D16): an operand is a group of edges (operandWeights), its weight the
+\* max over its edges; the first operand seeds, nothing re-seeds
+GroupW(gg, ew) == MaxStrat(SortedSeq(gg), 1, ew)
+RECURSIVE EnforceG(_, _, _, _)
+EnforceG(gs, i, acc, ew) ==
+  IF i > Len(gs) THEN acc
+  ELSE LET w == GroupW(gs[i], ew)
+           nacc == IF i = 1 THEN w ELSE [k \in DOMAIN acc \cap DOMAIN w |-> Max(acc[k], w[k])]
+       IN EnforceG(gs, i + 1, nacc, ew)
+RECURSIVE MixedG(_, _, _, _)
+MixedG(gs, i, acc, ew) ==
+  IF i > Len(gs) THEN acc
+  ELSE LET w == GroupW(gs[i], ew)
+           nacc == IF i = 1 THEN w ELSE [k \in DOMAIN acc |-> IF k \in DOMAIN w THEN Max(acc[k], w[k]) ELSE acc[k]]
+       IN MixedG(gs, i + 1, nacc, ew)
+
 \* map-order choice of fixDependantEdgesWeight: for each dependent edge, which of its reference keys are ranged
 \* after the root's own key (only then a follow-up dependency is registered for a key the edge already has)
 \* (a choice is the set of pairs <<edge, key>> for which that happens; only pairs that can make a difference are offered:
@@ -278,9 +298,9 @@ FE(C, node, cycles, s, choice) ==
      IF Len(es) = 0 THEN R("invalid:noedges", cycles, s)
      ELSE IF isUnionish THEN R("none", cycles, [s EXCEPT !.nw[node] = MaxStrat(es, 1, s.ew)])
      ELSE IF C.label[node] = "intersection" THEN
-        LET fw == EnforceFold(es, 1, EmptyW, s.ew) IN
+        LET fw == IF "OperandPerEdge" \in Devs THEN EnforceFold(es, 1, EmptyW, s.ew) ELSE EnforceG(C.GroupSeq[node], 1, EmptyW, s.ew) IN
         IF DOMAIN fw = {} THEN R("invalid:nocommon", cycles, s) ELSE R("none", cycles, [s EXCEPT !.nw[node] = fw])
-     ELSE R("none", cycles, [s EXCEPT !.nw[node] = MixedFold(es, 1, EmptyW, s.ew)])
+     ELSE R("none", cycles, [s EXCEPT !.nw[node] = IF "OperandPerEdge" \in Devs THEN MixedFold(es, 1, EmptyW, s.ew) ELSE MixedG(C.GroupSeq[node], 1, EmptyW, s.ew)])
   ELSE IF (C.nt[node] = "rel" \/ (C.nt[node] = "op" /\ C.label[node] = "union")) /\ node \in cycles THEN
      IF Len(es) = 0 THEN R("invalid:noedges", cycles, s)
      ELSE                                            \* calculateNodeWeightAndFixDependencies
